@@ -199,3 +199,68 @@ func BusyGoroutines() int {
 	}
 	return n
 }
+
+// BusyThunderGoroutines counts goroutines that have a frame inside thunder
+// itself (not only the harness) and are running, runnable, sleeping or in a
+// system call. Harness goroutines that merely wait for thunder (pollers,
+// WaitCond callers) have no such frame and are not counted.
+func BusyThunderGoroutines() int {
+	n := 0
+	for _, g := range ThunderGoroutines() {
+		m := goroutineHeader.FindStringSubmatch(g)
+		if m == nil {
+			continue
+		}
+		switch strings.TrimSpace(m[1]) {
+		case "running", "runnable", "sleep", "syscall":
+			n++
+		}
+	}
+	return n
+}
+
+// AwaitOrParked waits for done. After soft it starts asking whether the
+// process is parked: three consecutive samples, 200 ms apart, in which done is
+// false, activity() is unchanged and no goroutine with a thunder frame is busy,
+// taken while the scheduler was not lagging. Then it returns QuiescentNot: the
+// awaited call can no longer make progress. If that never happens before hard,
+// the call is slow, not stuck: Undecided.
+func AwaitOrParked(done func() bool, activity func() int64, soft, hard time.Duration) Outcome {
+	start := time.Now()
+	sleep := 100 * time.Microsecond
+	for time.Since(start) < soft {
+		if done() {
+			return Reached
+		}
+		time.Sleep(sleep)
+		if sleep < 5*time.Millisecond {
+			sleep *= 2
+		}
+	}
+	clean := 0
+	last := activity()
+	for time.Since(start) < hard {
+		if done() {
+			return Reached
+		}
+		t0 := time.Now()
+		time.Sleep(200 * time.Millisecond)
+		lag := time.Since(t0) - 200*time.Millisecond
+		a := activity()
+		if a != last || lag > 25*time.Millisecond || BusyThunderGoroutines() > 0 {
+			clean, last = 0, a
+			continue
+		}
+		clean++
+		if clean >= 3 {
+			if done() {
+				return Reached
+			}
+			return QuiescentNot
+		}
+	}
+	if done() {
+		return Reached
+	}
+	return Undecided
+}
